@@ -118,6 +118,24 @@ def _run_ppt(ctx, spec, rng):
         designed = [-1e-4, -1e-5, -1e-6, -2e-7, 2e-7, 1e-6, 1e-4][(r // 8) % 7]
         lam = (1 / big - designed) / (1 / big + np.sqrt(0.21))
         rho = lam * np.outer(psi, psi.conj()) + (1 - lam) * np.eye(big) / big
+    if kind == 1 and (r // 4) % 3 == 1:
+        # exactly X-shaped two-qubit states (entries on the diagonal and the anti-diagonal only), weakly entangled: cos t |00> + e^{i phi} sin t |11>
+        # (or on |01>, |10>), alone or with diagonal noise; smallest partial-transpose eigenvalue about -t, a factor 20 .. 1e4 beyond the threshold
+        da = db = 2
+        big = 4
+        t_ = [2e-7, 1e-6, 1e-5, 1e-4, 3e-7, 3e-5][(r // 12) % 6]
+        ph_ = float(rng.uniform(0, 2 * np.pi)) if cplx else 0.0
+        i_, j_ = [(0, 3), (1, 2)][(r // 24) % 2]
+        v_ = np.zeros(4, dtype=complex)
+        v_[i_], v_[j_] = np.cos(t_), np.exp(1j * ph_) * np.sin(t_)
+        rho = np.outer(v_, v_.conj())
+        if (r // 48) % 2:
+            nz = np.zeros(4)
+            nz[[i_, j_]] = rng.random(2)  # noise on the two populated levels only: the other 2 x 2 block of the partial transpose stays exactly -t-ish
+            rho = 0.9 * rho + 0.1 * np.diag(nz / nz.sum())
+        designed = ref.eigmin(ref.partial_transpose(rho, [1], [2, 2], [2, 2]))
+        if designed > -1.5e-7:
+            return ctx.note_inconclusive("x-state-margin")
     if not cplx:
         rho = rho.real
     for sys_ in (1, 2):
@@ -125,8 +143,6 @@ def _run_ppt(ctx, spec, rng):
         if designed is not None and abs(lam_min - designed) > 1e-9:
             ctx.harness_error("designed partial-transpose eigenvalue not met")
             continue
-        if designed is not None and r % 3 == 2:
-            continue  # tol = 1e-6 reaches the test as a relative tolerance (section 3): the band between 1e-8 and 1e-6 is not decided
         if designed is None and -1e-3 < lam_min < -1e-12:
             ctx.evals["O1:is_ppt:band-skipped"] += 1
             continue
@@ -137,6 +153,8 @@ def _run_ppt(ctx, spec, rng):
         # a single number d means [d, N/d]: as a one-element list, a one-element array or a float (the forms the library accepts)
         forms.append([("list1", [da]), ("array1", np.array([da])), ("float", float(da))][r % 3])
         tol = [None, 1e-8, 1e-6][r % 3]
+        if designed is not None:
+            tol = [None, 1e-8][(r // 12) % 2]  # tol = 1e-6 reaches the test as a relative tolerance (section 3): the band between 1e-8 and 1e-6 is not decided
         for fname, dim in forms:
             args = (rho.copy(), sys_, dim) if tol is None else (rho.copy(), sys_, dim, tol)
             got = ctx.call(is_ppt, *args)
